@@ -5,6 +5,7 @@ An op is a dict {"op": <kind>, ..., "then": n|None}: after the external event th
 tids or pids, so a shortened list stays meaningful; an op that is not applicable is a no-op.
 """
 import json
+import os
 
 from .common import HarnessError, Violation
 from .pool import FINAL, PoolWorld
@@ -51,11 +52,12 @@ def draw_knobs(rng: Rng, profile: str):
     kr = rng.fork("knobs")
     p = PROFILES[profile]
     faulty = kr.chance(0.66)  # about a third of the runs are fault-free
+    deep = os.environ.get("VERIF_DEPTH") == "thorough"
     knobs = dict(
         profile=profile,
         cores=kr.pick([1, 1, 2, 2, 3, 4]),
-        n_tasks=kr.pick([1, 2, 3, 3, 4, 4, 5, 6, 8, 12]),
-        max_ops=kr.pick([12, 20, 30, 40, 60, 80]),
+        n_tasks=kr.pick([1, 2, 3, 3, 4, 4, 5, 6, 8, 12] + ([10, 16, 24] if deep else [])),
+        max_ops=kr.pick([12, 20, 30, 40, 60, 80] + ([120, 200] if deep else [])),
         p_limit=kr.pick([0.0, 0.0, 0.2, 0.5]),
         p_dep=kr.pick([0.0, 0.3, 0.5, 0.8]),
         p_fail_code=kr.pick([0.0, 0.15, 0.3, 0.5]),
